@@ -1017,7 +1017,31 @@ def _tok_txt(toks):
     return "[" + " ".join(nm.get(t, "op") if isinstance(t, int) else repr(t) for t in toks) + "]"
 
 
+def c07_16(ctx):
+    """MEMO: no method of the modules this property is anchored in answers from a value remembered from an earlier argument or an
+    earlier state of the object (confirmed caches of the reference tree: sa/memo.py CONFIRMED_CACHES)"""
+    from sa.memo import cache_obligation
+    return cache_obligation(ctx, ["script", "op", "timelock"], "a verdict or decoded script remembered from one evaluation would be returned for another script or stack")
+
+
+def c07_17(ctx):
+    """SET-ORDER: no ordered result (list, serialisation, yielded sequence) of the modules this property is anchored in takes its
+    order from the iteration order of a set"""
+    from sa.setorder import setorder_obligation
+    return setorder_obligation(ctx, ["script", "op", "timelock"], "the same inputs give different output from run to run")
+
+
+def c07_18(ctx):
+    """SHARED necessary conditions over the modules this property is anchored in: FALSY-DEFAULT, MUTABLE-DEFAULT, IDENTITY, ALIAS,
+    CTOR-FORWARD (sa/shared.py)"""
+    from sa.shared import shared_obligations
+    return shared_obligations(ctx, ["script", "op", "timelock"], "the result would depend on something other than the arguments and the object's current state")
+
+
 OBLIGATIONS = [
+    ("C07.18", "SHARED", c07_18),
+    ("C07.17", "SET-ORDER", c07_17),
+    ("C07.16", "MEMO", c07_16),
     ("C07.1", "STACKFX", c07_1),
     ("C07.2", "STACKFX", c07_2),
     ("C07.3", "STACKFX", c07_3),
